@@ -353,7 +353,7 @@ fn owns(id: &str, m: &Mismatch) -> bool {
         "C06" | "C10" | "C11" => {
             generic
                 || k == "func_ref"
-                || (matches!(k, "entity_missing" | "entity_extra") && matches!(s, "func" | "import"))
+                || (matches!(k, "entity_missing" | "entity_extra") && matches!(s, "func" | "import" | "start"))
                 || (k == "entity_changed" && s == "import.type")
         }
         "C07" => generic || k == "global_ref" || (matches!(k, "entity_missing" | "entity_extra") && s == "global"),
